@@ -80,8 +80,11 @@ class Ctx:
         out = ["(set-logic ALL)", "(set-option :produce-models true)"]
         for n, s in self.decls:
             out.append("(declare-const %s %s)" % (n, smt_sort(s)))
+        # definitions as constrained constants, not define-fun macros: cvc5 expands macros
+        # at parse time, which turns the shared DAG into a tree (measured: timeout vs 1 s)
         for n, s, e in self.defs:
-            out.append("(define-fun %s () %s %s)" % (n, smt_sort(s), e))
+            out.append("(declare-const %s %s)" % (n, smt_sort(s)))
+            out.append("(assert (= %s %s))" % (n, e))
         for a in asserts:
             out.append("(assert %s)" % a)
         out.append("(check-sat)")
